@@ -107,7 +107,7 @@ fn gate_cases(rng: &mut Rng) -> Vec<FileCase> {
         out.push(FileCase { tag: format!("label-{}", i), ast: vec![it], exec: false, stack_hint: true, input: vec![] });
     }
     // programs that use none of the four mnemonics: image and behaviour must not depend on the flag
-    for prog in catalogue().into_iter().filter(|p| !p.stack && p.name != "rawd_off") {
+    for prog in catalogue().into_iter().filter(|p| !p.stack && !p.name.starts_with("rawd_off")) {
         out.push(FileCase { tag: format!("plain-{}", prog.name), ast: prog.ast, exec: true, stack_hint: false, input: prog.input });
     }
     for i in 0..6 {
